@@ -14,8 +14,8 @@
 use nom::{
     Parser,
     branch::alt,
-    bytes::complete::{tag, tag_no_case},
-    character::complete::{anychar, char, multispace1},
+    bytes::complete::{tag, tag_no_case, take_while1},
+    character::complete::{anychar, char},
     combinator::{cut, map, not, opt, peek, value, verify},
     error::context,
     multi::{many0, separated_list0, separated_list1},
@@ -115,7 +115,13 @@ pub fn word<'a>(
 /// Consumes at least one whitespace character or a line comment, then any
 /// further trivia.
 fn trivia1(input: &str) -> VResult<'_, ()> {
-    let (rest, _) = alt((map(multispace1, |_| ()), map(peek(tag("//")), |_| ()))).parse(input)?;
+    // The same predicate `skip_ws_and_comments` uses: whitespace that separates
+    // tokens everywhere else separates the words of a keyword too.
+    let (rest, _) = alt((
+        map(take_while1(|c: char| c.is_whitespace()), |_| ()),
+        map(peek(tag("//")), |_| ()),
+    ))
+    .parse(input)?;
     skip_ws_and_comments(rest)
 }
 
